@@ -421,7 +421,17 @@ def run(rep, tier):
             rep.bad("C10.R4", fn, fn.loc, "steal-flag", "scheduling_loop must derive the stealing flags from the scheduler mode (pending: %s, staged: %s)" % (ok, bool(ok2)))
         # ---- R5
         rq = [ev for _, _, ev in fn.all_events() if ev.get("k") == "call" and callee_short(ev) in ("schedule_thread", "schedule_thread_last") and P(ev.get("recv")) == "scheduler"]
-        if rq and all(T(strip(e["args"][1])) == "thread_schedule_hint{num_thread}" for e in rq):
+        from engine.kinds import expand_locals as _xl5
+
+        def hint_text(e):
+            a = strip(e["args"][1])
+            t = T(a)
+            if re.match(r"^\w+$", t):            # a named constant initialised once from thread_schedule_hint(num_thread)
+                ini5 = local_init(fn, t)
+                if ini5 is not None:
+                    t = T(strip(ini5))
+            return t
+        if rq and all(hint_text(e) in ("thread_schedule_hint{num_thread}", "thread_schedule_hint(num_thread)") for e in rq):
             rep.ok("C10.R5", fn, "all %d re-queue sites pass thread_schedule_hint(num_thread)" % len(rq), sites=len(rq))
         else:
             rep.bad("C10.R5", fn, fn.loc, "requeue-hint", "a yielding task must be re-queued with a hint for the worker it ran on: %s" % [T(e["args"][1]) for e in rq])
